@@ -224,8 +224,24 @@ def _apply_one(zdir: str, e: dict, day: int, validate: bool) -> dict:
         rel = _pick_page(zdir, e)
         if len(list_zo(zdir)) <= 1:
             raise _Skip("last page")
-        os.unlink(os.path.join(zdir, rel))
+        # the user's "trash": a deleted page can come back unchanged later (page_restore)
+        trash = os.path.join(os.path.dirname(zdir.rstrip("/")), "trash", rel)
+        os.makedirs(os.path.dirname(trash), exist_ok=True)
+        os.replace(os.path.join(zdir, rel), trash)
         return {"applied": True, "pages": [rel], "deleted": rel}
+    if kind == "page_restore":
+        troot = os.path.join(os.path.dirname(zdir.rstrip("/")), "trash")
+        cands = []
+        for dirpath, _dirs, files in os.walk(troot):
+            for fn in sorted(files):
+                cands.append(os.path.relpath(os.path.join(dirpath, fn), troot))
+        cands = sorted(c for c in cands if not os.path.exists(os.path.join(zdir, c)))
+        if not cands:
+            raise _Skip("nothing to restore")
+        rel = cands[e.get("page", 0) % len(cands)]
+        os.makedirs(os.path.dirname(os.path.join(zdir, rel)), exist_ok=True)
+        os.replace(os.path.join(troot, rel), os.path.join(zdir, rel))
+        return {"applied": True, "pages": [rel], "restored": rel}
     if kind == "page_mv":
         rel = _pick_page(zdir, e)
         new = e["to"]
